@@ -110,6 +110,9 @@ func StartVictim(cfg VictimCfg, l Launch) (p *Proc, alive bool, err error) {
 	cmd := exec.Command(args[0], args[1:]...)
 	cmd.SysProcAttr = &syscall.SysProcAttr{Setpgid: true}
 	cmd.Stderr = nil
+	// two Ps are plenty for the victim's pipelines; sixteen only add idle-thread churn (futex,
+	// nanosleep) that the supervisor has to watch
+	cmd.Env = append(os.Environ(), "GOMAXPROCS=2")
 	stdin, err := cmd.StdinPipe()
 	if err != nil {
 		return nil, false, err
@@ -409,6 +412,7 @@ type World struct {
 	Work string // scratch for oracles (outside Root)
 	Cfg  Config
 	VC   VictimCfg
+	Seed int64
 	Rng  *rand.Rand
 	App  *sql.DB
 	P    *Proc
@@ -434,7 +438,7 @@ func NewWorld(root, work string, cfg Config, seed int64, logf func(string, ...an
 	if err := os.MkdirAll(work, 0o755); err != nil {
 		return nil, err
 	}
-	w := &World{Root: root, Work: work, Cfg: cfg, VC: cfg.Victim(root), Rng: rand.New(rand.NewSource(seed)), Logf: logf, TracedPhase: -1}
+	w := &World{Root: root, Work: work, Cfg: cfg, VC: cfg.Victim(root), Seed: seed, Rng: rand.New(rand.NewSource(seed)), Logf: logf, TracedPhase: -1}
 	app, err := sq.Create(w.VC.DBPath(), cfg.PageSize, 0)
 	if err != nil {
 		return nil, fmt.Errorf("create db: %w", err)
@@ -572,6 +576,9 @@ func (w *World) Run(steps []Step, from int) (int, error) {
 			traced := s.Op == "startT"
 			if traced {
 				w.TracedPhase = w.Phase
+				// application data of the traced phase does not depend on how much randomness the
+				// prelude consumed (the prelude may come from a snapshot, see SavePrelude)
+				w.Rng = rand.New(rand.NewSource(w.Seed ^ 0x5851f42d4c957f2d))
 			}
 			l := Launch{Mode: Plain}
 			if w.LaunchFor != nil {
@@ -721,4 +728,108 @@ func (w *World) Run(steps []Step, from int) (int, error) {
 	}
 	w.InFlight = ""
 	return len(steps), nil
+}
+
+// ---------------------------------------------------------------------------
+// prelude snapshots: the state a scenario is in right before its traced phase
+// starts is the same for every kill index, so the case generator saves it once
+// (files + acknowledgements) and kill runs start from a copy. Without a
+// snapshot (e.g. --replay in a fresh scratch directory) the prelude is simply
+// executed again.
+
+// TracedStart returns the index of the startT step.
+func (sc *Scenario) TracedStart() int {
+	for i, s := range sc.Steps {
+		if s.Op == "startT" {
+			return i
+		}
+	}
+	return 0
+}
+
+type preludeMeta struct {
+	K     int64             `json:"k"`
+	Phase int               `json:"phase"`
+	Acks  []preludeAck      `json:"acks"`
+	Out   map[string]uint64 `json:"out,omitempty"`
+}
+
+type preludeAck struct {
+	TXID uint64 `json:"txid"`
+	Via  string `json:"via"`
+}
+
+// SavePrelude stores the current state (victim down, application idle) in dir.
+func (w *World) SavePrelude(dir string) error {
+	if w.P != nil {
+		return fmt.Errorf("prelude snapshot with a running victim")
+	}
+	tmp := dir + ".partial"
+	_ = os.RemoveAll(tmp)
+	if err := os.MkdirAll(filepath.Join(tmp, "s"), 0o755); err != nil {
+		return err
+	}
+	for _, name := range []string{"db", "db-wal"} {
+		if err := sq.CopyFile(filepath.Join(w.Root, name), filepath.Join(tmp, "s", name)); err != nil && !os.IsNotExist(err) {
+			return err
+		}
+	}
+	for _, name := range []string{".db-litestream", "rep"} {
+		if _, err := os.Stat(filepath.Join(w.Root, name)); err != nil {
+			continue
+		}
+		if err := copyTree(filepath.Join(w.Root, name), filepath.Join(tmp, "s", name)); err != nil {
+			return err
+		}
+	}
+	m := preludeMeta{K: w.K, Phase: w.Phase}
+	for i, a := range w.Acks {
+		m.Acks = append(m.Acks, preludeAck{a.TXID, a.Via})
+		if err := os.WriteFile(filepath.Join(tmp, fmt.Sprintf("ack%d.img", i)), a.Img, 0o644); err != nil {
+			return err
+		}
+	}
+	b, _ := json.Marshal(m)
+	if err := os.WriteFile(filepath.Join(tmp, "meta.json"), b, 0o644); err != nil {
+		return err
+	}
+	_ = os.RemoveAll(dir)
+	return os.Rename(tmp, dir)
+}
+
+// NewWorldFromPrelude builds a world from a snapshot written by SavePrelude.
+func NewWorldFromPrelude(snap, root, work string, cfg Config, seed int64, logf func(string, ...any)) (*World, error) {
+	b, err := os.ReadFile(filepath.Join(snap, "meta.json"))
+	if err != nil {
+		return nil, err
+	}
+	var m preludeMeta
+	if err := json.Unmarshal(b, &m); err != nil {
+		return nil, err
+	}
+	if err := os.MkdirAll(work, 0o755); err != nil {
+		return nil, err
+	}
+	if err := copyTree(filepath.Join(snap, "s"), root); err != nil {
+		return nil, err
+	}
+	w := &World{Root: root, Work: work, Cfg: cfg, VC: cfg.Victim(root), Seed: seed, Rng: rand.New(rand.NewSource(seed)), Logf: logf, TracedPhase: -1, K: m.K, Phase: m.Phase}
+	for i, a := range m.Acks {
+		img, err := os.ReadFile(filepath.Join(snap, fmt.Sprintf("ack%d.img", i)))
+		if err != nil {
+			return nil, err
+		}
+		w.Acks = append(w.Acks, Ack{TXID: a.TXID, Via: a.Via, Img: img})
+	}
+	app, err := sq.Open(w.VC.DBPath(), 50, 0, 1)
+	if err != nil {
+		return nil, err
+	}
+	w.App = app
+	var k int64
+	if err := app.QueryRow(`SELECT max(k) FROM ledger`).Scan(&k); err != nil || k != m.K {
+		return nil, fmt.Errorf("prelude snapshot: ledger %d, expected %d (%v)", k, m.K, err)
+	}
+	logf("state before the traced phase taken from the prelude snapshot (k=%d, %d acknowledgements)", m.K, len(m.Acks))
+	return w, nil
 }
